@@ -7,6 +7,6 @@ CONSTANTS
   Flags0 <- MCFlags0
   Int0 <- MCInt0
   Emit <- EmitJson
-INVARIANTS TypeOK RankBounded ForeignBitsKept PrePassOnlyPre NoPrePassNoPre IntFromLine NonOptionsUntouchedInOrder ArgvCompacted CompactPrefix
+INVARIANTS TypeOK ReadingIsFunction RankBounded ForeignBitsKept PrePassOnlyPre NoPrePassNoPre IntFromLine NonOptionsUntouchedInOrder ArgvCompacted CompactPrefix
 PROPERTIES Terminates BoolTouchesOnlyMask OtherPassUntouched
 CHECK_DEADLOCK FALSE
